@@ -393,7 +393,7 @@ func (h *h1) readAll(clause string, start int64, committed bool) {
 			return
 		}
 		if off != want.off {
-			h.fail(clause, clause+"/order", "%s: expected offset %d next, got %d", who, want.off, off)
+			h.fail(clause, clause+"/order", "%s: expected offset %d next, got %d; segments %s", who, want.off, off, h.segDump())
 			return
 		}
 		if !h.compare(clause, who, want, m, off, ts, ep) {
@@ -522,4 +522,16 @@ func panicSite(stack string) string {
 		}
 	}
 	return "unknown"
+}
+
+// segDump describes the log's segment list (diagnostics of a failed read).
+func (h *h1) segDump() string {
+	out := ""
+	for _, sg := range h.log.segments {
+		out += fmt.Sprintf("[base=%d first=%d last=%d pos=%d closed=%v replaced=%v]", sg.BaseOffset, sg.firstOffset, sg.lastOffset, sg.position, sg.closed, sg.replaced)
+	}
+	if a := h.log.activeSegment(); a != nil {
+		out += fmt.Sprintf(" active base=%d", a.BaseOffset)
+	}
+	return out
 }
